@@ -4,6 +4,8 @@ Definition x_prng_init := prng_init Perm.perm.
 Definition x_prng_reseed := prng_reseed Perm.perm.
 Definition x_prng_fetch := prng_fetch Perm.perm.
 Definition x_prng_feed := prng_feed Perm.perm.
-Definition x_prng_save := prng_save_seed Perm.perm.
-Definition x_prng_load := prng_load_seed Perm.perm.
+(* save / load with the full storage descriptor and the log of callback calls; PrngP.save_g_refines / load_g_refines
+   relate them to prng_save_seed / prng_load_seed (the operations of Model/Leak.v) *)
+Definition x_prng_save := prng_save_seed_g Perm.perm.
+Definition x_prng_load := prng_load_seed_g Perm.perm.
 Definition x_random_oneshot := random_oneshot Perm.perm.
